@@ -79,3 +79,17 @@ Proof.
   rewrite Pos2Z.inj_mul. qz_push.
   field. repeat split; apply qz_nonzero; unfold ns_per_s; lia.
 Qed.
+
+(* truncation toward zero depends on the value of the rational only *)
+Lemma Qtrunc_opp q : Qtrunc (- q) = - Qtrunc q.
+Proof. destruct q as [n d]. unfold Qtrunc, Qopp; cbn. apply Z.quot_opp_l. lia. Qed.
+
+Lemma Qtrunc_comp p q : (p == q)%Q -> Qtrunc p = Qtrunc q.
+Proof.
+  intros E. destruct (Qlt_le_dec p 0) as [Hneg|Hpos].
+  - assert (H : Qtrunc (- p) = Qtrunc (- q)).
+    { apply Qtrunc_comp_nonneg; [|rewrite E; reflexivity].
+      apply Qlt_le_weak in Hneg. apply Qopp_le_compat in Hneg. exact Hneg. }
+    rewrite !Qtrunc_opp in H. lia.
+  - apply Qtrunc_comp_nonneg; assumption.
+Qed.
